@@ -121,6 +121,14 @@ def run(ctx: core.Ctx) -> int:
     # ---- SEARCH
     search = core.need(core.find_func(base, "search"), "StateMachineState.search")
     where = f"{F}:StateMachineState.search"
+    # helper generators fused, namedtuple entries unpacked, annotated assignments plain: the rules read the search, not its packaging
+    _nzs = normast.Normaliser(normast.class_resolver(mod, base), consts=normast.module_constants(mod), namedtuples=normast.module_namedtuples(mod))
+    search = normast.inline_only(search, normast.class_resolver(mod, base))
+    search.body = normast.plain_annassign(search.body)
+    search = _nzs.alias(search)
+    search.body = normast.split_assign(_nzs.nt_unpack(search.body))
+    search = _nzs.alias(search)
+    ast.fix_missing_locations(search)
     b = search.body
     first = next((s for s in b if not (isinstance(s, ast.Expr) and isinstance(s.value, ast.Constant))), None)
     ok1 = isinstance(first, ast.If) and ast.unparse(first.test).replace(" ", "") == "notisinstance(end_state,StateId)" and any(isinstance(x, ast.Raise) for x in first.body)
@@ -181,7 +189,8 @@ def run(ctx: core.Ctx) -> int:
             tn = inner.target.id if isinstance(inner.target, ast.Name) else "?"
             apps = [c for st in inner.body for c in ast.walk(st) if isinstance(c, ast.Call) and U(c.func) == f"{fr}.append"]
             want = f"{fr}.append(SearchState(inspect.signature(getattr({cur},{tn})).return_annotation,{path}+[{tn}]))"
-            ext = it_ok and len(apps) == 1 and _al.text(apps[0]) == want
+            _sra, SR = astpat.resolver(search, keep={fr, cur, path, tn})
+            ext = it_ok and len(apps) == 1 and (_al.text(apps[0]) == want or SR(apps[0]) == want)
         ctx.oblige("SEARCH", where, "each listed transition appends (its annotated target, popped path + [name]) at the back", ext, file=F, func="StateMachineState.search",
                    construct="path extension", msg="frontier entries do not extend the popped entry's path by the transition just looked up")
         after = b[b.index(loop) + 1:] if loop in b else []
@@ -192,6 +201,11 @@ def run(ctx: core.Ctx) -> int:
     fm = core.need(classes.get("FitModelState"), "FitModelState")
     impl = core.need(core.find_func(fm, "_fit_model_impl"), "FitModelState._fit_model_impl")
     where = f"{F}:FitModelState._fit_model_impl"
+    # staged private helpers and module constants are folded in: the rules below read the workflow, not how it is cut into methods
+    _nz = normast.Normaliser(normast.class_resolver(mod, fm), consts=normast.module_constants(mod))
+    impl = _nz.function(impl)
+    for h_ in _nz.inlined:
+        ctx.functions.append(f"ui_state_machine.FitModelState.{h_} (inlined into _fit_model_impl)")
     ib = impl.body
     RA, R = astpat.resolver(impl)
 
@@ -246,15 +260,25 @@ def run(ctx: core.Ctx) -> int:
     okex = ex is not None and any(isinstance(r, ast.Return) and ast.unparse(r.value) == "self.fit_estimator.export_python()" for r in ast.walk(ex))
     ctx.oblige("FIT", f"{F}:FitModelState.export_python", "export_python delegates to the fitted estimator", okex, file=F, func="FitModelState.export_python",
                construct="export delegation", msg="export_python does not export the fitted estimator")
-    finit = normast.Normaliser().function(core.need(core.find_func(fm, "__init__"), "FitModelState.__init__"))
+    finit = normast.Normaliser(normast.class_resolver(mod, fm, exclude={"_fit_model_impl"}), consts=normast.module_constants(mod)).function(
+        core.need(core.find_func(fm, "__init__"), "FitModelState.__init__"))
     _fa, FR = astpat.resolver(finit)
-    hits = astpat.find("""
+    hits = [h_ for h_ in astpat.find("""
 for _K_, _D_ in __E__.items():
-    if _K_ not in self.parameter_space or not self.parameter_space[_K_]:
-        self.parameter_space[_K_] = [_D_]
-""", finit)
-    stores = [n_ for n_ in ast.walk(finit) if isinstance(n_, ast.Subscript) and isinstance(n_.ctx, (ast.Store, ast.Del)) and ast.unparse(n_.value) == "self.parameter_space"]
-    muts = [c_ for c_ in ast.walk(finit) if isinstance(c_, ast.Call) and isinstance(c_.func, ast.Attribute) and ast.unparse(c_.func.value) == "self.parameter_space"
+    if _K_ not in __PS__ or not __PS__[_K_]:
+        __PS__[_K_] = [_D_]
+""", finit) if ast.unparse(h_[0]["__PS__"]) in ("self.parameter_space", "parameter_space")]
+    # ... or over a sequence of required keys with a fresh default each
+    hits += [h_ for h_ in astpat.find("""
+for _K_ in __E__:
+    if _K_ not in __PS__ or not __PS__[_K_]:
+        __PS__[_K_] = [__D__]
+""", finit) if ast.unparse(h_[0]["__PS__"]) in ("self.parameter_space", "parameter_space")
+        and not any(isinstance(x_, ast.Name) and x_.id in ("parameter_space",) or isinstance(x_, ast.Attribute) and x_.attr == "parameter_space" for x_ in ast.walk(h_[0]["__D__"]))]
+    # the grid object is `parameter_space` (the argument) alias `self.parameter_space`: writes through either name count
+    names_ps = ("self.parameter_space", "parameter_space")
+    stores = [n_ for n_ in ast.walk(finit) if isinstance(n_, ast.Subscript) and isinstance(n_.ctx, (ast.Store, ast.Del)) and ast.unparse(n_.value) in names_ps]
+    muts = [c_ for c_ in ast.walk(finit) if isinstance(c_, ast.Call) and isinstance(c_.func, ast.Attribute) and ast.unparse(c_.func.value) in names_ps
             and c_.func.attr in ("update", "pop", "clear", "setdefault", "popitem")]
     okd = len(hits) == 1 and len(stores) == 1 and not muts
     ps = [ast.unparse(s.value) for s in ast.walk(finit) if isinstance(s, ast.Assign) and any(ast.unparse(t_) == "self.parameter_space" for t_ in s.targets)]
@@ -267,13 +291,14 @@ for _K_, _D_ in __E__.items():
     _ca, CR = astpat.resolver(cvi)
     pname = [a_.arg for a_ in cvi.args.args][1] if len(cvi.args.args) > 1 else None
     given = [ast.unparse(s.value) for s in ast.walk(cvi) if isinstance(s, ast.Assign) and any(ast.unparse(t_) == "self._params" for t_ in s.targets)]
-    hits = astpat.find("""
+    names_p = ("self._params", pname)
+    hits = [h_ for h_ in astpat.find("""
 for _K_, _V_ in dataclasses.asdict(__D__).items():
-    if _K_ not in self._params:
-        self._params[_K_] = _V_
-""", cvi)
-    cstores = [n_ for n_ in ast.walk(cvi) if isinstance(n_, ast.Subscript) and isinstance(n_.ctx, (ast.Store, ast.Del)) and ast.unparse(n_.value) == "self._params"]
-    cmuts = [c_ for c_ in ast.walk(cvi) if isinstance(c_, ast.Call) and isinstance(c_.func, ast.Attribute) and ast.unparse(c_.func.value) == "self._params"
+    if _K_ not in __P__:
+        __P__[_K_] = _V_
+""", cvi) if ast.unparse(h_[0]["__P__"]) in names_p]
+    cstores = [n_ for n_ in ast.walk(cvi) if isinstance(n_, ast.Subscript) and isinstance(n_.ctx, (ast.Store, ast.Del)) and ast.unparse(n_.value) in names_p]
+    cmuts = [c_ for c_ in ast.walk(cvi) if isinstance(c_, ast.Call) and isinstance(c_.func, ast.Attribute) and ast.unparse(c_.func.value) in names_p
              and c_.func.attr in ("update", "pop", "clear", "setdefault", "popitem")]
     okcv = given == [pname] and len(hits) == 1 and CR(hits[0][0]["__D__"]) == "python.Config()" and len(cstores) == 1 and not cmuts
     ctx.oblige("FIT", f"{F}:ConfigView.__init__", f"given parameters override defaults (defaults fill only missing keys): _params = {given}, {len(hits)} default loop, "
